@@ -738,3 +738,134 @@ def register(ex):  # noqa: F811
     ex.probe("augDecodeCaches", "List String",
              '["models/common/constructive/nonautoregressive/decoder.py:_multistart_batched_index:lru_cache", "utils/ops.py:get_full_graph_edge_index:lru_cache"]',
              "memoised functions / module-level dict caches in the decoding path (file:name:kind)", decode_caches(ex))
+
+
+# ---- round 6: masking before the softmax (HetGNN), "reset, then augment the reset td" (POMO / SymNCO), coordinate keys ----------
+
+def hgnn_masks_before_softmax(ex):
+    """HetGNNLayer.forward: non-neighbour logits are set to -inf BEFORE `F.softmax` (true).  The recognised negative case:
+    no -inf fill before the softmax and the softmax output multiplied by the adjacency / mask afterwards (false)."""
+
+    def is_neg_inf(n):
+        s = ex.norm(n)
+        return s in ("-torch.inf", "-math.inf", "-np.inf", "float('-inf')", "-float('inf')", "-inf")
+
+    def run():
+        tree = ex.parse("rl4co/models/nn/graph/hgnn.py")
+        fn = ex.find_function(tree, "HetGNNLayer.forward") if tree else None
+        if fn is None:
+            return None
+        soft = [n for n in ast.walk(fn) if isinstance(n, ast.Call) and ex.norm(n.func).split(".")[-1] == "softmax"]
+        if len(soft) != 1:
+            return None
+        sl = soft[0].lineno
+        fills = []
+        for n in ast.walk(fn):
+            if isinstance(n, ast.Assign) and len(n.targets) == 1 and isinstance(n.targets[0], ast.Subscript) and is_neg_inf(n.value):
+                fills.append(n.lineno)
+            if isinstance(n, ast.Call) and isinstance(n.func, ast.Attribute) and n.func.attr in ("masked_fill", "masked_fill_") \
+                    and len(n.args) == 2 and is_neg_inf(n.args[1]):
+                fills.append(n.lineno)
+        if any(l <= sl for l in fills):
+            return "true"
+        # softmax output (or a slice of it) multiplied by something afterwards
+        tgt = None
+        for n in ast.walk(fn):
+            if isinstance(n, ast.Assign) and n.value is soft[0] and isinstance(n.targets[0], ast.Name):
+                tgt = n.targets[0].id
+        if tgt is not None:
+            for n in ast.walk(fn):
+                if isinstance(n, ast.BinOp) and isinstance(n.op, ast.Mult) and n.lineno > sl and tgt in ex.norm(n.left) + ex.norm(n.right):
+                    return "false"
+        return None
+
+    return run
+
+
+def augments_reset_td(ex, rel, qual):
+    """`td = self.env.reset(batch)` first, then `td = self.augment(td)` on THAT td (true); augmenting `batch` / augmenting before
+    the reset (false)"""
+
+    def run():
+        tree = ex.parse(rel)
+        fn = ex.find_function(tree, qual) if tree else None
+        if fn is None:
+            return None
+        resets = [n for n in ast.walk(fn) if isinstance(n, ast.Assign) and len(n.targets) == 1 and isinstance(n.targets[0], ast.Name)
+                  and isinstance(n.value, ast.Call) and ex.norm(n.value.func) == "self.env.reset"]
+        augs = [n for n in ast.walk(fn) if isinstance(n, ast.Call) and ex.norm(n.func) == "self.augment" and len(n.args) == 1]
+        if len(resets) != 1 or len(augs) != 1:
+            return None
+        arg = augs[0].args[0]
+        if not isinstance(arg, ast.Name):
+            return None
+        return _b(arg.id == resets[0].targets[0].id and augs[0].lineno > resets[0].lineno)
+
+    return run
+
+
+def default_feats(ex):
+    def run():
+        tree = ex.parse(REL)
+        fn = ex.find_function(tree, "StateAugmentation.__init__") if tree else None
+        if fn is None:
+            return None
+        for n in ast.walk(fn):
+            if isinstance(n, ast.Assign) and ex.norm(n.targets[0]) == "self.feats" and isinstance(n.value, ast.List) \
+                    and all(isinstance(e, ast.Constant) and isinstance(e.value, str) for e in n.value.elts):
+                return "[" + ", ".join('"' + e.value + '"' for e in n.value.elts) + "]"
+        return None
+
+    return run
+
+
+RESET_ENVS = [("tsp", "rl4co/envs/routing/tsp/env.py", "TSPEnv._reset"), ("cvrp", "rl4co/envs/routing/cvrp/env.py", "CVRPEnv._reset"),
+              ("sdvrp", "rl4co/envs/routing/sdvrp/env.py", "SDVRPEnv._reset"), ("op", "rl4co/envs/routing/op/env.py", "OPEnv._reset"),
+              ("pctsp", "rl4co/envs/routing/pctsp/env.py", "PCTSPEnv._reset"), ("pdp", "rl4co/envs/routing/pdp/env.py", "PDPEnv._reset"),
+              ("mtsp", "rl4co/envs/routing/mtsp/env.py", "MTSPEnv._reset"), ("cvrptw", "rl4co/envs/routing/cvrptw/env.py", "CVRPTWEnv._reset")]
+COORD_KEYS = ("locs", "depot", "depots")
+
+
+def reset_coord_keys(ex):
+    """per env: the coordinate-bearing keys of the TensorDict its `_reset` builds (a dict literal with string keys)"""
+
+    def run():
+        rows = []
+        for name, rel, qual in RESET_ENVS:
+            tree = ex.parse(rel)
+            fn = ex.find_function(tree, qual) if tree else None
+            if fn is None:
+                continue
+            best = None
+            for n in ast.walk(fn):
+                if isinstance(n, ast.Dict) and n.keys and all(isinstance(k, ast.Constant) and isinstance(k.value, str) for k in n.keys):
+                    ks = [k.value for k in n.keys]
+                    if "locs" in ks and (best is None or len(ks) > len(best)):
+                        best = ks
+            if best is None:
+                continue
+            coord = [k for k in best if k in COORD_KEYS]
+            rows.append('("' + name + '", [' + ", ".join('"' + k + '"' for k in coord) + "])")
+        if not rows:
+            return None
+        return "[" + ", ".join(rows) + "]"
+
+    return run
+
+
+_register_round5 = register
+
+
+def register(ex):  # noqa: F811
+    _register_round5(ex)
+    ex.probe("augHgnnMasksBeforeSoftmax", "Bool", "true",
+             "models/nn/graph/hgnn.py:HetGNNLayer.forward  `all_logits[~mask] = -torch.inf` precedes `F.softmax`", hgnn_masks_before_softmax(ex))
+    ex.probe("augPomoAugmentsResetTd", "Bool", "true",
+             "models/zoo/pomo/model.py:POMO.shared_step  `td = self.env.reset(batch)` … `td = self.augment(td)`",
+             augments_reset_td(ex, "rl4co/models/zoo/pomo/model.py", "POMO.shared_step"))
+    ex.probe("augSymncoAugmentsResetTd", "Bool", "true",
+             "models/zoo/symnco/model.py:SymNCO.shared_step  `td = self.env.reset(batch)` … `td = self.augment(td)`",
+             augments_reset_td(ex, "rl4co/models/zoo/symnco/model.py", "SymNCO.shared_step"))
+    ex.probe("augDefaultFeats", "List String", '["locs"]', "data/transforms.py:StateAugmentation.__init__  default `self.feats`", default_feats(ex))
+    ex.probe("augResetCoordKeys", "List (String × List String)", '[("tsp", ["locs"]), ("cvrp", ["locs"]), ("sdvrp", ["locs"]), ("op", ["locs"]), ("pctsp", ["locs"]), ("pdp", ["locs"]), ("mtsp", ["locs"]), ("cvrptw", ["locs"])]',
+             "coordinate-bearing keys of the TensorDict each env's `_reset` builds", reset_coord_keys(ex))
